@@ -345,6 +345,27 @@ def run_op(op, world):
             ms3 = ms if isinstance(ms, tuple) else (ms, ms, ms)
             out = ld.groupby("g").align(world.templates[0], mask=mask, max_shifts=ms3, alignment_model=Model, **kw)
             return [(k, l) for k, l in out]
+    if kind == "cutoff_scan":
+        # a parameter scan: several models that differ in their low-pass cutoff are built one after the other (which fills
+        # the small memo caches of the filter weights), then the tasks of two of them are computed in one go
+        from acryo._dask import compute as acryo_compute
+
+        Model = model_class(op["model"])
+        cutoffs = [0.2, 0.25, 0.3, 0.35, 0.4, 0.45][: op["n_cutoffs"]]
+        models = [Model(world.templates[0], None, cutoff=c) for c in cutoffs]
+        scale = ld.scale
+        var = dict(quaternion=ld.molecules.quaternion(), pos=ld.molecules.pos / scale)
+        a, b = models[op["pair"][0] % len(models)], models[op["pair"][1] % len(models)]
+        if op["method"] == "score":
+            ta = ld.construct_mapping_tasks(a.score, output_shape=a.input_shape, var_kwarg=var)
+            tb = ld.construct_mapping_tasks(b.score, output_shape=b.input_shape, var_kwarg=var)
+            ra, rb = acryo_compute([ta, tb])
+            return [[float(x) for x in ra], [float(x) for x in rb]]
+        ms_px = (1.0, 1.0, 1.0)
+        ta = ld.construct_mapping_tasks(a.align, max_shifts=ms_px, output_shape=a.input_shape, var_kwarg=var)
+        tb = ld.construct_mapping_tasks(b.align, max_shifts=ms_px, output_shape=b.input_shape, var_kwarg=var)
+        ra, rb = acryo_compute([ta, tb])
+        return [[(int(r.label), np.asarray(r.shift), np.asarray(r.quat), float(r.score)) for r in rr] for rr in (ra, rb)]
     if kind == "apply":
         funcs = [APPLY_FUNCS[f] for f in op["funcs"]]
         return ld.apply(funcs)
@@ -378,7 +399,7 @@ def gen_op(rng: random.Random, world_spec, kinds=None):
         "asnumpy", "load", "load_iter", "construct_dask", "average", "average_split", "fsc",
         "align", "align", "align", "align_no_template", "align_multi_templates", "align_multi_templates", "landscape", "landscape",
         "score", "score", "score", "shared_model", "shared_model", "shared_model", "group_align", "group_align", "apply", "classify",
-        "masked_difference_stack", "masked_difference_stack", "group_average", "group_average_split", "group_apply",
+        "masked_difference_stack", "masked_difference_stack", "group_average", "group_average_split", "group_apply", "cutoff_scan",
     ]
     kind = rng.choice(kinds)
     n = sum(world_spec["n_mol"])
@@ -427,6 +448,11 @@ def gen_op(rng: random.Random, world_spec, kinds=None):
         if kind == "align_no_template" and p["mask"] == "soft":
             p["mask"] = None
         op["params"] = p
+    elif kind == "cutoff_scan":
+        op["model"] = rng.choice(["ZNCC", "NCC", "PCC"])
+        op["n_cutoffs"] = rng.randint(3, 6)
+        op["pair"] = [rng.randrange(6), rng.randrange(6)]
+        op["method"] = rng.choice(["score", "align"])
     elif kind in ("apply", "group_apply"):
         k = rng.randint(1, 3)
         op["funcs"] = rng.sample(sorted(APPLY_FUNCS), k)
